@@ -1,4 +1,5 @@
-//! K9: the real portable algorithms driven with *recording mock* inner transforms of arbitrary advertised specs:
+//! K9: the real portable algorithms (and the crate-private AVX / SSE algorithms that wrap inner transforms, through hook
+//! constructors) driven with *recording mock* inner transforms of arbitrary advertised specs:
 //! which inner is called, through which entry point, on which region of the caller's buffers, with which scratch.
 use crate::util::*;
 use rustfft::algorithm::*;
@@ -85,6 +86,11 @@ pub fn run_case(algo: &str, entry: &str, len: usize, s0: [usize; 4], s1: [usize;
             "Radix4" => Arc::new(Radix4::new_with_base(1, m0)),
             "Radix3" => Arc::new(Radix3::new_with_base(1, m0)),
             "RadixN" => rustfft::verif_hooks::new_radixn(&[2, 3], m0),
+            // the crate-private SIMD algorithms, through hook constructors
+            "AvxMixedRadix" => rustfft::verif_hooks::avx_algo_f64(&format!("mr{}", len / s0[0].max(1)), len, m0).expect("avx"),
+            "AvxRaders" => rustfft::verif_hooks::avx_algo_f64("raders", len, m0).expect("avx2"),
+            "AvxBluesteins" => rustfft::verif_hooks::avx_algo_f64("bluesteins", len, m0).expect("avx"),
+            "SseRadix4" => rustfft::verif_hooks::sse_radix4_f64(1, m0).expect("sse"),
             _ => panic!("bad algo"),
         }
     });
@@ -152,8 +158,9 @@ pub fn run(args: &[String]) {
     let any_pairs = [(2usize, 2usize), (3, 6), (4, 4), (6, 9), (8, 2), (5, 5), (1, 4), (12, 3)];
     let rader_inner = [2usize, 4, 6, 10, 12, 16, 18, 22, 28, 30, 36];
     for i in 0..count {
-        let algo = ["MixedRadix", "MixedRadixSmall", "GoodThomas", "GoodThomasSmall", "Raders", "Bluesteins", "Radix4", "Radix3", "RadixN"][i % 9];
-        let entry = ["inplace", "oop", "immut"][(i / 9) % 3];
+        let algo = ["MixedRadix", "MixedRadixSmall", "GoodThomas", "GoodThomasSmall", "Raders", "Bluesteins", "Radix4", "Radix3", "RadixN",
+            "AvxMixedRadix", "AvxRaders", "AvxBluesteins", "SseRadix4"][i % 13];
+        let entry = ["inplace", "oop", "immut"][(i / 13) % 3];
         let (len, s0, s1): (usize, [usize; 4], [usize; 4]) = match algo {
             "MixedRadix" | "MixedRadixSmall" | "GoodThomas" | "GoodThomasSmall" => {
                 let (mut w, mut h) = if algo.starts_with("Good") || rng.below(2) == 0 { coprime_pairs[rng.below(coprime_pairs.len() as u64) as usize] } else { any_pairs[rng.below(any_pairs.len() as u64) as usize] };
@@ -176,6 +183,29 @@ pub fn run(args: &[String]) {
                 } else {
                     (len, s0, s1)
                 }
+            }
+            "AvxMixedRadix" => {
+                let r = [2usize, 3, 4, 5, 6, 7, 8, 9, 11, 12, 16][rng.below(11) as usize];
+                let m = 1 + rng.below(13) as usize;
+                let len = r * m;
+                (len, [m, pick_scr(&mut rng, m, len), pick_scr(&mut rng, m, len), pick_scr(&mut rng, m, len)], [0; 4])
+            }
+            "AvxRaders" => {
+                // the immutable entry starves its first inner call when inner.inplace > inner.len: both sides report STARVED
+                let m = rader_inner[rng.below(rader_inner.len() as u64) as usize];
+                (m + 1, [m, pick_scr(&mut rng, m, m + 1), pick_scr(&mut rng, m, m + 1), pick_scr(&mut rng, m, m + 1)], [0; 4])
+            }
+            "AvxBluesteins" => {
+                // the inner length must be a multiple of the vector width (2 complex f64)
+                let n = 1 + rng.below(9) as usize;
+                let m = (2 * n - 1 + rng.below(6) as usize + 1) / 2 * 2;
+                (n, [m, pick_scr(&mut rng, m, m), pick_scr(&mut rng, m, m), pick_scr(&mut rng, m, m)], [0; 4])
+            }
+            "SseRadix4" => {
+                // base length a multiple of 2 * COMPLEX_PER_VECTOR (= 2 for f64); the base always gets an empty scratch
+                let b = 2 * (1 + rng.below(6) as usize);
+                let inpl = if rng.below(3) == 0 { pick_scr(&mut rng, b, 4 * b) } else { 0 };
+                (4 * b, [b, inpl, pick_scr(&mut rng, b, 4 * b), pick_scr(&mut rng, b, 4 * b)], [0; 4])
             }
             "Raders" => {
                 let m = rader_inner[rng.below(rader_inner.len() as u64) as usize];
